@@ -15,11 +15,17 @@ func init() {
 
 // irqPlan raises requests from inside bus callbacks at chosen access counts.
 type irqPlan struct {
-	At   []uint64 // access counts (memory accesses) at which a request is raised
-	Kind []int    // 0 NMI, 1 INT
-	Data [][]uint8
-	IOAt []uint64 // port access counts at which an NMI is raised
+	At    []uint64 // access counts (memory accesses) at which a request is raised
+	Kind  []int    // 0 NMI, 1 INT
+	Data  [][]uint8
+	IOAt  []uint64 // port access counts at which an NMI is raised
 	fired map[*z80.CPU]int
+
+	OnHaltFetch bool // raise a request from the read callback that delivers the final HALT opcode
+	HaltAddr    uint16
+	HaltKind    int // 0 NMI, 1 maskable (data per mode in HaltData)
+	HaltData    []uint8
+	haltDone    map[*z80.CPU]bool
 }
 
 // Fired returns how many requests the callbacks have raised on cpu so far.
@@ -37,7 +43,19 @@ func (pl *irqPlan) install(cpu *z80.CPU, mem *mon.Mem, io *mon.IO) {
 	if pl.fired == nil {
 		pl.fired = map[*z80.CPU]int{}
 	}
+	if pl.haltDone == nil {
+		pl.haltDone = map[*z80.CPU]bool{}
+	}
 	mem.Hook = func(m *mon.Mem, a mon.Access) {
+		if pl.OnHaltFetch && !pl.haltDone[cpu] && a.Kind == 'R' && a.Addr == pl.HaltAddr && a.Val == 0x76 && cpu.PC == pl.HaltAddr {
+			pl.haltDone[cpu] = true
+			pl.fired[cpu]++
+			if pl.HaltKind == 0 {
+				cpu.Interrupt = z80.NMIInterrupt()
+			} else {
+				cpu.Interrupt = &z80.Interrupt{Type: z80.IMType, Data: append([]uint8(nil), pl.HaltData...)}
+			}
+		}
 		for i, at := range pl.At {
 			if m.Count == at {
 				pl.fired[cpu]++
@@ -60,12 +78,22 @@ func (pl *irqPlan) install(cpu *z80.CPU, mem *mon.Mem, io *mon.IO) {
 }
 
 // twinRun applies the stop rule of the property on a Step-driven CPU.
-func twinRun(cpu *z80.CPU, maxSteps int, pl *irqPlan, lost *int) (err error, steps int, ok bool) {
+func twinRun(cpu *z80.CPU, maxSteps int, pl *irqPlan, lost *int, mem *mon.Mem, flagDisagrees *bool) (err error, steps int, ok bool) {
 	cpu.HALT = false
 	for steps < maxSteps {
 		f0 := pl.Fired(cpu)
+		pc := cpu.PC
+		n0 := len(mem.Log)
 		cpu.Step()
 		steps++
+		// independent of the flag: did this Step execute a HALT opcode? (fetched 76 at PC,
+		// no request accepted, PC still on it)
+		// (an accepting Step never starts with a read of the byte at PC: its first
+		// bus access is the push, and mode-0 instruction bytes come from the device)
+		executedHALT := len(mem.Log) > n0 && mem.Log[n0].Kind == 'R' && mem.Log[n0].Addr == pc && mem.Log[n0].Val == 0x76 && cpu.PC == pc
+		if executedHALT != cpu.HALT {
+			*flagDisagrees = true
+		}
 		if pl.Fired(cpu) != f0 && cpu.Interrupt == nil {
 			// a callback raised a request during this Step: it must be
 			// pending at the next instruction boundary
@@ -88,7 +116,7 @@ func runC08(c *Ctx) {
 	mon.DiscardStdLog()
 	ncfg := c.Pick(10000, 300000)
 	var mu sync.Mutex
-	var evals, runCalls, bpStops, haltStops, staleHalt, withIRQ, irqAccepted, wrapProgs, haltTop, rerunHalted, totalSteps int64
+	var evals, runCalls, bpStops, haltStops, staleHalt, withIRQ, irqAccepted, wrapProgs, haltTop, rerunHalted, totalSteps, bpEditsTotal int64
 	distinct := mon.NewDistinct(4_000_000)
 	bpClassCount := map[string]int64{}
 
@@ -153,6 +181,18 @@ func runC08(c *Ctx) {
 			if p.HasIO && r.Bool() {
 				plan.IOAt = append(plan.IOAt, uint64(1+r.Intn(6)))
 			}
+			if r.Intn(4) == 0 {
+				// the request arrives with the very read that delivers the final HALT opcode
+				plan.OnHaltFetch = true
+				plan.HaltAddr = p.HaltAddr
+				plan.HaltKind = r.Intn(2)
+				switch o.IM {
+				case 0:
+					plan.HaltData = []uint8{0xff}
+				case 2:
+					plan.HaltData = []uint8{uint8(r.Intn(128) * 2)}
+				}
+			}
 		}
 		// pilot: Step-driven, no breakpoints: PC trace and instruction boundaries
 		memT.Reset()
@@ -211,6 +251,8 @@ func runC08(c *Ctx) {
 			bps = map[uint16]struct{}{0x0038: {}, 0x0066: {}, p.HandlerAddr(): {}, p.HandlerAddr() + 0x40: {}}
 		}
 		stale := r.Bool()
+		bpSize := len(bps)
+		bpEdits := 0
 
 		// --- the two twins
 		memR.Reset()
@@ -225,6 +267,7 @@ func runC08(c *Ctx) {
 		plan.install(twin, memT, ioT)
 		bad := ""
 		lost := 0
+		flagDisagrees := false
 		var lcalls, lbp, lhalt, lsteps int64
 		var lrerun int64
 		accepted := false
@@ -235,7 +278,7 @@ func runC08(c *Ctx) {
 			preHalted := twin.HALT && call > 0 && twin.Interrupt == nil
 			preStates := twin.States
 			preFired := plan.Fired(twin)
-			tErr, tSteps, ok := twinRun(twin, 400000, plan, &lost)
+			tErr, tSteps, ok := twinRun(twin, 400000, plan, &lost, memT, &flagDisagrees)
 			if !ok {
 				return // pilot said it halts; with breakpoints it must too — but be safe
 			}
@@ -293,6 +336,9 @@ func runC08(c *Ctx) {
 			if tSteps < 1 {
 				bad = "no Step executed"
 			}
+			if flagDisagrees {
+				bad = "the halted indication after a Step does not say whether that Step executed a HALT opcode"
+			}
 			if lost > 0 {
 				bad = "a request raised by a memory/port callback was dropped instead of being honoured at the next boundary"
 			}
@@ -313,6 +359,23 @@ func runC08(c *Ctx) {
 			if rErr == nil && run.PC != p.HaltAddr {
 				break // halted somewhere else (derailed by IM0 known finding): stop here
 			}
+			// the user edits the breakpoint set between two Run calls: same size, other
+			// members (both twins share the map)
+			if bps != nil && len(bps) > 0 && call%3 == 1 && len(trace) > 0 {
+				for a := range bps {
+					if a != run.PC {
+						delete(bps, a)
+						break
+					}
+				}
+				for tries := 0; tries < 8 && len(bps) < bpSize; tries++ {
+					bps[trace[r.Intn(len(trace))]] = struct{}{}
+				}
+				for len(bps) < bpSize {
+					bps[r.U16()] = struct{}{}
+				}
+				bpEdits++
+			}
 		}
 		for _, a := range trace {
 			if a == 0x0066 || a == 0x0038 || a == p.HandlerAddr() {
@@ -330,6 +393,7 @@ func runC08(c *Ctx) {
 		if stale {
 			staleHalt++
 		}
+		bpEditsTotal += int64(bpEdits)
 		if plan != nil {
 			withIRQ++
 			if accepted {
@@ -375,6 +439,7 @@ func runC08(c *Ctx) {
 	c.R.Set("halt_stops", haltStops)
 	c.R.Set("runs_on_halted_cpu", rerunHalted)
 	c.R.Set("stale_halt_configs", staleHalt)
+	c.R.Set("breakpoint_set_edits_between_runs", bpEditsTotal)
 	c.R.Set("configs_with_callback_interrupts", withIRQ)
 	c.R.Set("configs_where_a_handler_ran", irqAccepted)
 	c.R.Set("wraparound_programs", wrapProgs)
@@ -382,7 +447,7 @@ func runC08(c *Ctx) {
 	c.R.Set("breakpoint_classes", bpClassCount)
 	c.R.Set("twin_steps", totalSteps)
 	c.R.Set("exhaustive", false)
-	c.R.Set("rule", "generated terminating programs (as C07, plus programs laid around 0000 so that control flow wraps FFFF->0000 and programs whose final HALT sits exactly at FFFF) x breakpoint sets {nil, empty, start PC, HALT address, addresses inside multi-byte instructions, addresses taken from the PC trace, random, handler entry points} x {fresh, stale HALT=true} x memory/port callbacks raising NMI/INT at chosen access counts, installed identically on both twins; Run is called repeatedly (continuing after every breakpoint stop, then once more on the halted CPU) and after every call compared with a twin CPU driven by Step under the property's stop rule: return value, full States incl. R, HALT, pending request, and the full ordered memory and port logs (so not one Step more or fewer); logical watchdog = twin's access count x2+64. Distinct = distinct configurations (program, breakpoint set); every configuration executes at least one Run call")
+	c.R.Set("rule", "generated terminating programs (as C07, plus programs laid around 0000 so that control flow wraps FFFF->0000 and programs whose final HALT sits exactly at FFFF) x breakpoint sets {nil, empty, start PC, HALT address, addresses inside multi-byte instructions, addresses taken from the PC trace, random, handler entry points} x {fresh, stale HALT=true} x memory/port callbacks raising NMI/INT at chosen access counts, installed identically on both twins (in 1/4 of them a request is raised by the very read that delivers the final HALT opcode); the breakpoint set is edited between Run calls (same size, other members); the twin decides 'this Step executed a HALT' from the opcode it fetched, not from the flag; Run is called repeatedly (continuing after every breakpoint stop, then once more on the halted CPU) and after every call compared with a twin CPU driven by Step under the property's stop rule: return value, full States incl. R, HALT, pending request, and the full ordered memory and port logs (so not one Step more or fewer); logical watchdog = twin's access count x2+64. Distinct = distinct configurations (program, breakpoint set); every configuration executes at least one Run call")
 	c.R.Assume("programs derailed by the C07 known finding (mode-0 resume address) are compared only as far as both twins go; Run and Step derail identically")
 }
 
